@@ -266,6 +266,8 @@ class Tr:
             self.note_alias(n.target, n.value)
             i = self.local(n.target.id)
             return p + [f"(Stmt.assign {i} {e})"], f"(Expr.loc {i})"
+        if isinstance(n, ast.Dict) and not n.keys:
+            return [], "(Expr.lit (Val.dict []))"      # the empty display `{}`
         if isinstance(n, (ast.List, ast.Tuple)):
             if all(isinstance(e, ast.Starred) for e in n.elts) and len(n.elts) == 2:
                 pa, ea = self.expr(n.elts[0].value)
@@ -802,6 +804,40 @@ def check_exception_names(tree: ast.Module) -> None:
                     raise Unrecognised(f"exception class name {bound} is bound by the module to {module}.{orig}")
 
 
+def desugar_dictcomp(fn, t):
+    """`<target> = {K: V for x in IT}` (one generator, no condition, a plain name as its variable, used nowhere else in the
+    function) is the three statements `$dc = {}` / `for x in IT: $dc[K] = V` / `<target> = $dc` – the definition of a dict
+    comprehension; the fresh dict is an owned container, never named again after the store (so value semantics are exact)."""
+    out, k = [], 0
+    for s in fn.body:
+        value = s.value if isinstance(s, (ast.Assign, ast.AnnAssign)) else None
+        if isinstance(value, ast.DictComp):
+            g = value.generators
+            if len(g) != 1 or g[0].ifs or g[0].is_async or not isinstance(g[0].target, ast.Name):
+                raise Unrecognised(f"dict comprehension shape: {ast.unparse(value)}")
+            var = g[0].target.id
+            inside = sum(1 for n in ast.walk(value) if isinstance(n, ast.Name) and n.id == var)
+            total = sum(1 for n in ast.walk(fn) if isinstance(n, (ast.Name, ast.arg)) and getattr(n, "id", getattr(n, "arg", None)) == var)
+            if total != inside:
+                raise Unrecognised(f"comprehension variable {var} is also a name of the function")
+            if any(isinstance(n, ast.Name) and n.id == var for n in ast.walk(g[0].iter)):
+                raise Unrecognised("comprehension variable inside its own iterable")
+            tmp = f"__dc{k}"
+            k += 1
+            t.containers.add(tmp)
+            new = ast.parse(f"{tmp} = {{}}\nfor {var} in {ast.unparse(g[0].iter)}:\n    {tmp}[{ast.unparse(value.key)}] = {ast.unparse(value.value)}\n").body
+            tgt = s.target if isinstance(s, ast.AnnAssign) else (s.targets[0] if len(s.targets) == 1 else None)
+            if tgt is None:
+                raise Unrecognised("multiple assignment targets")
+            new.append(ast.Assign(targets=[tgt], value=ast.Name(id=tmp, ctx=ast.Load())))
+            for n in new:
+                ast.fix_missing_locations(n)
+            out.extend(new)
+        else:
+            out.append(s)
+    fn.body = out
+
+
 def translate(repo, t: Target) -> tuple[str, dict[str, int]]:
     """-> (Lean term of type Stmt, numbering of the locals)"""
     from pathlib import Path
@@ -809,6 +845,7 @@ def translate(repo, t: Target) -> tuple[str, dict[str, int]]:
     tree = ast.parse((Path(repo) / t.file).read_text())
     check_exception_names(tree)
     cls_node, fn = find(tree, t.cls, t.method)
+    desugar_dictcomp(fn, t)
     a = fn.args
     names = [x.arg for x in a.posonlyargs + a.args + a.kwonlyargs]
     if a.vararg:
